@@ -205,7 +205,7 @@ func runC03(r *mc.Run) {
 			reenc := c.Choose("reencode", 12)
 			idv := c.Choose("idversion", 16)
 			lev := c.Choose("levels", 3)
-			memb := c.Choose("member", 5)
+			memb := c.Choose("member", 10)
 			sigf := c.Choose("sigfield", 16)
 			hdr := c.Choose("header", 14)
 			id := "menu/" + c.ID() + world.LogTag()
@@ -318,6 +318,17 @@ func runC03(r *mc.Run) {
 			case 4:
 				memberJSON = "[" + string(sent) + "]"
 			}
+			// 5..9: the signed document is delivered under ANOTHER member name (an older / other API's name, another
+			// capitalisation, the other document's name): the response then has no member of the required name
+			memberName := d.member
+			if memb >= 5 {
+				alt := map[string][]string{"tcbInfo": {"tcbinfo", "TcbInfo", "tcb_info", "tdxTcbInfo", "enclaveIdentity"},
+					"enclaveIdentity": {"qeIdentity", "EnclaveIdentity", "enclave_identity", "tdQeIdentity", "tcbInfo"}}[d.member]
+				if alt == nil {
+					alt = []string{"x", "x", "x", "x", "x"}
+				}
+				memberName = alt[memb-5]
+			}
 			sigJSON := `"` + sigHex + `"`
 			switch sigf {
 			case 1:
@@ -368,9 +379,9 @@ func runC03(r *mc.Run) {
 			var parts []string
 			if memberJSON != "" {
 				if around {
-					parts = append(parts, fmt.Sprintf("\n  %q :  %s  ", d.member, memberJSON))
+					parts = append(parts, fmt.Sprintf("\n  %q :  %s  ", memberName, memberJSON))
 				} else {
-					parts = append(parts, fmt.Sprintf("%q:%s", d.member, memberJSON))
+					parts = append(parts, fmt.Sprintf("%q:%s", memberName, memberJSON))
 				}
 			}
 			if sigJSON != "" {
